@@ -164,7 +164,7 @@ func Mutate(t *rapid.T, s *rt.Spec) string {
 				continue
 			}
 			x := ts[uniform(t, "which", len(ts))]
-			if x.K == "W" || x.K == "U" {
+			if x.K == "W" || x.K == "U" || x.K == "V" {
 				continue
 			}
 			nt := rt.TaskSpec{Unit: s.Units, Out: []rt.TypeRef{x}, Sp: "lit"}
